@@ -326,6 +326,10 @@ POOL_V_SMALL = [None, S(""), S("ACTIVE"), S("ACT"), S("ACTIV"), S("D"), S("TIV")
                 F(1.0), F(2.5), F(5.000000000000001), F(math.nan), I(10 ** 400), S("5"), S("6"), S("nan"), S("1_0"), S("٣"), L(), L(S("A")), L(I(1), I(2), I(3)),
                 L(S("a"), S("b"), S("c"), S("d")), S("2024-01-15"), S("2024-02-30"), S("2024-01-15T10:00:00Z"), S("a\x00b"), Z("x", "Python"), Z("x", None), S("1.5"), S("X")]
 
+# the widened L=3 sweep over the large constraint pool uses this cross-section
+POOL_V_TINY = [None, S(""), S("ACTIVE"), S("ACT"), S("abc"), S("abcd"), True, I(1), I(5), I(6), F(math.nan), S("nan"), L(S("A")),
+               L(I(1), I(2), I(3), I(4)), S("2024-01-15"), F(2.5)]
+
 # constraint texts for ConstraintChain.parse: (text) — well-formed, quirky and malformed
 POOL_T_CORE = [
     "REQ", "OPT", "DIR", "APPEND_ONLY", "DATE", "ISO8601", "TYPE[LITERAL]", "LANG[python]", "LANG[Python]",
